@@ -79,6 +79,10 @@ def _system(draw, tier):
             A[0][0] = draw(st.sampled_from([0.0, 0.0, 0.125]))
     m = draw(st.integers(1, 3))
     B = [[draw(st.integers(-32, 32)) / 8.0 for _ in range(m)] for _ in range(n)]
+    if draw(st.integers(0, 7)) == 0:
+        zc = draw(st.integers(0, m - 1))          # a right-hand side column of zeros (planar data, a homogeneous system)
+        for r_ in B:
+            r_[zc] = 0.0
     # exact power-of-two scaling of the whole system: the property quantifies over float matrices of any magnitude
     ea = draw(st.sampled_from([0, 0, 0, -10, 10, -24, -30, -40, 30, -60]))
     eb = draw(st.sampled_from([0, 0, -20, 20, ea]))
